@@ -262,9 +262,24 @@ class SymRange(L.SymVal):
         raise Undecided("iteration over a symbolic range")
 
 
-@nmodel(any, all)
-def m_anyall(ctx, args, kw):
-    raise Undecided("any/all over symbolic")
+def _anyall(is_any):
+    def m(ctx, args, kw):
+        items = [ctx.truthy(x) for x in iterate(ctx, args[0])]
+        return lor(*items) if is_any else land(*items)
+    m.always = False
+    return m
+
+
+NATIVE_MODELS[any] = _anyall(True)
+NATIVE_MODELS[all] = _anyall(False)
+
+
+@nmodel(ord)
+def m_ord(ctx, args, kw):
+    x = args[0]
+    if type(x).__name__ == "ZChar":
+        return x.code           # a z3 Int, or a low-bits value when the string is modelled over bit-vectors
+    raise Undecided("ord() of symbolic")
 
 
 @nmodel(io.BytesIO)
@@ -314,6 +329,20 @@ def m_join(ctx, selfv, args, kw):
         if i:
             parts.append(selfv)
         x = simplify_native(x)
+        if all(type(simplify_native(y)).__name__ == "ZChar" for y in items) and selfv == "":
+            from . import seqs as Q
+            return Q.CStr([y.code for y in items])
+        if type(x).__name__ in ("ZChar", "ZSeq"):
+            from . import seqs as Q
+            acc = None
+            for j, y in enumerate(items):
+                z = Q.coerce(y, "str")
+                if z is None:
+                    raise PyRaise(TypeError, "sequence item: expected str")
+                if j and selfv:
+                    acc = Q.ZSeq(z3.Concat(acc.t, Q.lit(selfv)), "str")
+                acc = z if acc is None else Q.ZSeq(z3.Concat(acc.t, z.t), "str")
+            return acc
         if not isinstance(x, (str, SStr)):
             if hasattr(x, "sym_as_str_part"):
                 parts.append(x.sym_as_str_part())
@@ -627,6 +656,18 @@ def m_str_find(ctx, selfv, args, kw):
     from .seqs import ZChar, Table
     c = args[0]
     if isinstance(c, ZChar) and len(set(selfv)) == len(selfv):
+        from .lowbits import LB
+        if isinstance(c.code, LB) and c.code.origin is not None and c.code.origin[0] == selfv:
+            return c.code.origin[1]     # table.find(table[i]) == i for a table of pairwise distinct characters
+        if isinstance(c.code, LB):
+            # bit-vector flavour: only under a path condition that already implies membership (the -1 case is excluded)
+            member = z3.Or(*[c.code.v == ord(ch) for ch in selfv])
+            if ctx.feasible(z3.Not(member)):
+                raise Undecided("str.find on a character not known to be in the string")
+            r = z3.BitVecVal(0, 32)
+            for i, ch in enumerate(selfv):
+                r = z3.If(c.code.v == ord(ch), z3.BitVecVal(i, 32), r)
+            return LB(r, True, max(1, (len(selfv) - 1).bit_length()))
         tab = Table.of(selfv)
         E._table_ground(ctx, tab)
         return z3.If(tab.IN(c.code), tab.IDX(c.code), -1)
